@@ -119,6 +119,10 @@ func runC08(c *fw.Case) (o fw.Outcome) {
 		}
 	}
 	b, err := nasEncodeVia(nv)
+	if m := retainCheck("nas-encode", b, d.Name); m != "" {
+		o.Fail("retained-encoding-changed", "%s", m)
+		return
+	}
 	o.Digest = fw.Hash([]byte(d.Name), b)
 	o.Nontrivial = npres > 0 || len(b) > 4
 	o.Input = fmt.Sprintf("%s optional-mask=%0*b encoding=%x", d.Name, k, mask, clip(b, 120))
